@@ -15,6 +15,7 @@
         (u <> t -> q6 <= x -> exists r', res = Ok r' /\ built r' /\
                               r_unit r' = u /\ r_term r' = t /\ accurate dm r' x) *)
 From Coq Require Import ZArith QArith Qabs List Bool.
+From QV Require Import Gen.RatesImpl Proofs.GenRatesEq.
 From QV Require Import Model.Num Model.Rounding Model.Quantity Model.Rates
      Proofs.RoundingQ Proofs.C09Proofs.
 
@@ -118,6 +119,26 @@ Theorem C09_rate_accuracy : forall dm r x, built r -> accurate dm r x ->
   Qabs (rate_of r - x) < 1 # 1000000.
 Proof. exact accurate_rate. Qed.
 Print Assumptions C09_rate_accuracy.
+
+(* THE MODEL IS THE CODE: ExchangeRate.__init__ (for currencies and exact
+   numbers), rate, inverse_rate, inverted, __eq__ and the rate-by-rate branches
+   of __mul__ / __truediv__ are re-translated from
+   src/quantity/money/__init__.py on every run (Gen/RatesImpl.v, fail-closed ast
+   translator translate/rates.py) and are equal, on all inputs and default
+   modes, to the model functions the theorems above are about *)
+Theorem C09_model_is_translated_code : forall dm u m t x a b,
+  mk_rate_impl dm u m t x = mk_rate dm u m t x /\
+  rate_of_impl a = rate_of a /\ inverse_rate_impl a = inverse_rate a /\
+  inverted_impl dm a = inverted dm a /\
+  rate_eqb_impl a b = rate_eqb a b /\
+  rate_mul_impl dm a b = rate_mul dm a b /\
+  rate_div_impl dm a b = rate_div dm a b.
+Proof.
+  intros. split; [apply mk_rate_impl_eq|]. split; [apply rate_of_impl_eq|].
+  split; [apply inverse_rate_impl_eq|]. split; [apply inverted_impl_eq|].
+  split; [apply rate_eqb_impl_eq|]. split; [apply rate_mul_impl_eq | apply rate_div_impl_eq].
+Qed.
+Print Assumptions C09_model_is_translated_code.
 
 (* ---- non-vacuity: the hypotheses are satisfiable, the model computes ---- *)
 (* 1 EUR = 1.25 USD *)
